@@ -52,9 +52,13 @@ def Castem.init (C : Consts α) (psz cat cap : Nat) : Castem α :=
   let z := List.replicate psz C.zero
   { u0 := z, u1 := z, u2 := z, r0 := z, r1 := z, r2 := z, cat := cat, cap := cap }
 
-def Castem.exec (C : Consts α) (st : Castem α) (u1 r : Vec α) (seps : α) (iter : Nat) : Castem α × Vec α :=
+/-- the history shift at the beginning of `execute` -/
+def Castem.shift (st : Castem α) (u1 r : Vec α) : Castem α :=
+  { st with u0 := st.u1, u1 := st.u2, u2 := u1, r0 := st.r1, r1 := st.r2, r2 := r }
+
+/-- the accelerated iterate, from the shifted history -/
+def Castem.step (C : Consts α) (st : Castem α) (u1 : Vec α) (seps : α) (iter : Nat) : Vec α :=
   let caEps := C.hundred * seps * C.eps
-  let st := { st with u0 := st.u1, u1 := st.u2, u2 := u1, r0 := st.r1, r1 := st.r2, r2 := r }
   if st.cat ≤ iter ∧ (iter - st.cat) % st.cap = 0 then
     let tmp0 := vsub st.r1 st.r0
     let tmp1 := vsub st.r2 st.r0
@@ -71,13 +75,24 @@ def Castem.exec (C : Consts α) (st : Castem α) (u1 r : Vec α) (seps : α) (it
         let c2 := p1 / nr1
         let c1 := (p0 - ntmp1 * c2) / nr0
         let a := C.one - c2 - c1
-        (st, List.zipWith (fun x yz => a * x + c1 * yz.1 + c2 * yz.2) st.u0 (List.zip st.u1 st.u2))
+        List.zipWith (fun x yz => a * x + c1 * yz.1 + c2 * yz.2) st.u0 (List.zip st.u1 st.u2)
       else
         let c0 := -(dot C st.r0 n0) / nr0
         let a := C.one - c0
-        (st, List.zipWith (fun x y => a * x + c0 * y) st.u0 st.u1)
-    else (st, u1)
-  else (st, u1)
+        List.zipWith (fun x y => a * x + c0 * y) st.u0 st.u1
+    else u1
+  else u1
+
+def Castem.exec (C : Consts α) (st : Castem α) (u1 r : Vec α) (seps : α) (iter : Nat) : Castem α × Vec α :=
+  let st := st.shift u1 r
+  (st, st.step C u1 seps iter)
+
+/-- one resolution attempt: the calls of iterations `iter`, `iter + 1`, ... -/
+def Castem.run (C : Consts α) (seps : α) : Castem α → List (Vec α × Vec α) → Nat → List (Vec α)
+  | _, [], _ => []
+  | st, c :: rest, iter =>
+    let res := Castem.exec C st c.1 c.2 seps iter
+    res.2 :: Castem.run C seps res.1 rest (iter + 1)
 
 /-! ## secant -/
 
@@ -92,17 +107,29 @@ def Secant.init (C : Consts α) (psz sat : Nat) : Secant α :=
   let z := List.replicate psz C.zero
   { u0 := z, u1 := z, r0 := z, r1 := z, sat := sat }
 
-def Secant.exec (C : Consts α) (st : Secant α) (u1 r : Vec α) (seps : α) (iter : Nat) : Secant α × Vec α :=
+def Secant.shift (st : Secant α) (u1 r : Vec α) : Secant α :=
+  { st with u0 := st.u1, r0 := st.r1, r1 := r, u1 := u1 }
+
+def Secant.step (C : Consts α) (st : Secant α) (u1 : Vec α) (seps : α) (iter : Nat) : Vec α :=
   let saEps := C.hundred * seps * C.eps
-  let st := { st with u0 := st.u1, r0 := st.r1, r1 := r, u1 := u1 }
   let dr := vsub st.r1 st.r0
   if st.sat ≤ iter then
     let nr2 := dot C dr dr
     if saEps < nr2 then
       let a := dot C st.r1 dr / nr2
-      (st, List.zipWith (fun x yz => x - a * (yz.1 - yz.2)) u1 (List.zip st.u1 st.u0))
-    else (st, u1)
-  else (st, u1)
+      List.zipWith (fun x yz => x - a * (yz.1 - yz.2)) u1 (List.zip st.u1 st.u0)
+    else u1
+  else u1
+
+def Secant.exec (C : Consts α) (st : Secant α) (u1 r : Vec α) (seps : α) (iter : Nat) : Secant α × Vec α :=
+  let st := st.shift u1 r
+  (st, st.step C u1 seps iter)
+
+def Secant.run (C : Consts α) (seps : α) : Secant α → List (Vec α × Vec α) → Nat → List (Vec α)
+  | _, [], _ => []
+  | st, c :: rest, iter =>
+    let res := Secant.exec C st c.1 c.2 seps iter
+    res.2 :: Secant.run C seps res.1 rest (iter + 1)
 
 /-! ## Irons-Tuck -/
 
@@ -115,18 +142,31 @@ def IronsTuck.init (C : Consts α) (psz itat : Nat) : IronsTuck α :=
   let z := List.replicate psz C.zero
   { r0 := z, r1 := z, itat := itat }
 
-def IronsTuck.exec (C : Consts α) (st : IronsTuck α) (u1 du : Vec α) (eeps : α) (iter : Nat) :
-    IronsTuck α × Vec α :=
+def IronsTuck.shift (st : IronsTuck α) (du : Vec α) : IronsTuck α :=
+  { st with r0 := st.r1, r1 := vneg du }
+
+def IronsTuck.step (C : Consts α) (st : IronsTuck α) (u1 : Vec α) (eeps : α) (iter : Nat) : Vec α :=
   let itEps := C.hundred * eeps * C.eps
-  let st := { st with r0 := st.r1, r1 := vneg du }
   if st.itat ≤ iter ∧ (iter - st.itat) % 2 = 0 then
     let dr := vsub st.r1 st.r0
     let nr2 := dot C dr dr
     if itEps * itEps < nr2 then
       let a := dot C st.r1 dr / nr2
-      (st, List.zipWith (fun x y => x - a * y) u1 st.r1)
-    else (st, u1)
-  else (st, u1)
+      List.zipWith (fun x y => x - a * y) u1 st.r1
+    else u1
+  else u1
+
+def IronsTuck.exec (C : Consts α) (st : IronsTuck α) (u1 du : Vec α) (eeps : α) (iter : Nat) :
+    IronsTuck α × Vec α :=
+  let st := st.shift du
+  (st, st.step C u1 eeps iter)
+
+/-- calls: (u1, du) -/
+def IronsTuck.run (C : Consts α) (eeps : α) : IronsTuck α → List (Vec α × Vec α) → Nat → List (Vec α)
+  | _, [], _ => []
+  | st, c :: rest, iter =>
+    let res := IronsTuck.exec C st c.1 c.2 eeps iter
+    res.2 :: IronsTuck.run C eeps res.1 rest (iter + 1)
 
 /-! ## Steffensen -/
 
@@ -150,14 +190,26 @@ def steffensenComp (C : Consts α) (itEps x u0 u1 u2 : α) : α :=
     if itEps < C.abs (i1 - i2) then u1 + C.one / (i1 - i2) else x
   else x
 
+def Steffensen.shift (st : Steffensen α) (u1 : Vec α) : Steffensen α :=
+  { st with u0 := st.u1, u1 := st.u2, u2 := u1 }
+
+def Steffensen.step (C : Consts α) (st : Steffensen α) (u1 : Vec α) (eeps : α) (iter : Nat) : Vec α :=
+  let itEps := C.hundred * eeps * C.eps
+  if st.stat ≤ iter ∧ (iter - st.stat) % 2 = 0 then
+    List.zipWith (fun x (y : α × α × α) => steffensenComp C itEps x y.1 y.2.1 y.2.2) u1
+      (List.zip st.u0 (List.zip st.u1 st.u2))
+  else u1
+
 def Steffensen.exec (C : Consts α) (st : Steffensen α) (u1 : Vec α) (eeps : α) (iter : Nat) :
     Steffensen α × Vec α :=
-  let itEps := C.hundred * eeps * C.eps
-  let st := { st with u0 := st.u1, u1 := st.u2, u2 := u1 }
-  if st.stat ≤ iter ∧ (iter - st.stat) % 2 = 0 then
-    (st, List.zipWith (fun x (y : α × α × α) => steffensenComp C itEps x y.1 y.2.1 y.2.2) u1
-      (List.zip st.u0 (List.zip st.u1 st.u2)))
-  else (st, u1)
+  let st := st.shift u1
+  (st, st.step C u1 eeps iter)
+
+def Steffensen.run (C : Consts α) (eeps : α) : Steffensen α → List (Vec α) → Nat → List (Vec α)
+  | _, [], _ => []
+  | st, c :: rest, iter =>
+    let res := Steffensen.exec C st c eeps iter
+    res.2 :: Steffensen.run C eeps res.1 rest (iter + 1)
 
 end
 
